@@ -107,10 +107,10 @@ theorem slice_set (l : Bytes) (i y n m : Nat) :
 /-- the octets the checksum covers: the first ten and the payload up to the announced length -/
 def hrnpCovered (d : Bytes) : Bytes := d.take 10 ++ (d.take (be16 ((d.take 10).drop 8))).drop 12
 
-theorem hrnpDec_true (d : Bytes) (hf : Bool) (h : hrnpDec d hf = .ok true) :
+theorem hrnpDecOld_true (d : Bytes) (hf : Bool) (h : hrnpDecOld d hf = .ok true) :
     12 ≤ d.length ∧ be16 ((d.take 10).drop 8) ≤ d.length
       ∧ hrnpChecksum (hrnpCovered d) = be16 ((d.take 12).drop 10) := by
-  unfold hrnpDec at h
+  unfold hrnpDecOld at h
   simp only [bind, Except.bind, pure, Except.pure] at h
   split at h
   · exact absurd h (by simp [throw, throwThe, MonadExceptOf.throw])
@@ -124,10 +124,10 @@ theorem hrnpDec_true (d : Bytes) (hf : Bool) (h : hrnpDec d hf = .ok true) :
           rw [beq_iff_eq] at h
           exact ⟨by omega, by omega, h⟩
 
-theorem hrnpDec_cases (d : Bytes) (hf : Bool) :
-    (∃ e, hrnpDec d hf = .error e)
-      ∨ hrnpDec d hf = .ok (hrnpChecksum (hrnpCovered d) == be16 ((d.take 12).drop 10)) := by
-  unfold hrnpDec
+theorem hrnpDecOld_cases (d : Bytes) (hf : Bool) :
+    (∃ e, hrnpDecOld d hf = .error e)
+      ∨ hrnpDecOld d hf = .ok (hrnpChecksum (hrnpCovered d) == be16 ((d.take 12).drop 10)) := by
+  unfold hrnpDecOld
   simp only [bind, Except.bind, pure, Except.pure]
   split
   · exact Or.inl ⟨_, rfl⟩
@@ -157,14 +157,14 @@ theorem getD_take_drop (l : Bytes) (i n m : Nat) (h : m + i < n) :
 /-- **HRNP, single inverted bit.**  `d` is accepted; `d'` differs from it in one octet `j` inside the
 announced length and outside the two length octets, by a power of two below 256 (what inverting one bit
 does): `d'` is not accepted. -/
-theorem hrnp_single_bit (d : Bytes) (hd : hrnpDec d false = .ok true) (j y b : Nat)
+theorem hrnp_single_bit (d : Bytes) (hd : hrnpDecOld d false = .ok true) (j y b : Nat)
     (hj : j < be16 ((d.take 10).drop 8)) (h8 : j ≠ 8) (h9 : j ≠ 9) (hb : b < 8)
     (hy : y = d.getD j 0 + 2 ^ b ∨ d.getD j 0 = y + 2 ^ b) (hf : Bool) :
-    hrnpDec (d.set j y) hf ≠ .ok true := by
-  obtain ⟨h12, hplen, hck⟩ := hrnpDec_true d false hd
+    hrnpDecOld (d.set j y) hf ≠ .ok true := by
+  obtain ⟨h12, hplen, hck⟩ := hrnpDecOld_true d false hd
   have hlen8 : ((d.set j y).take 10).drop 8 = (d.take 10).drop 8 := by
     rw [slice_set, if_neg (by omega)]
-  rcases hrnpDec_cases (d.set j y) hf with ⟨e, he⟩ | hr
+  rcases hrnpDecOld_cases (d.set j y) hf with ⟨e, he⟩ | hr
   · rw [he]; simp
   · rw [hr]
     intro hcontra
@@ -230,10 +230,10 @@ theorem hrnp_single_bit (d : Bytes) (hd : hrnpDec d false = .ok true) (j y b : N
         exact hy
 
 
-theorem hrnpDec_of_parts (head inner : Bytes) (c : Nat) (hh : head.length = 10)
+theorem hrnpDecOld_of_parts (head inner : Bytes) (c : Nat) (hh : head.length = 10)
     (hP : be16 (head.drop 8) = 12 + inner.length) (hop : hrnpOpcodes.contains (head.getD 3 0) = true)
     (hc : c = hrnpChecksum (head ++ inner)) (hc' : c ≤ 65535) :
-    hrnpDec (head ++ [c / 256 % 256, c % 256] ++ inner) false = .ok true := by
+    hrnpDecOld (head ++ [c / 256 % 256, c % 256] ++ inner) false = .ok true := by
   have hl : (head ++ [c / 256 % 256, c % 256] ++ inner).length = 12 + inner.length := by
     simp [hh]; omega
   have h12 : (head ++ [c / 256 % 256, c % 256]).length = 12 := by simp [hh]
@@ -244,7 +244,7 @@ theorem hrnpDec_of_parts (head inner : Bytes) (c : Nat) (hh : head.length = 10)
   have g3 : (head ++ [c / 256 % 256, c % 256] ++ inner).getD 3 0 = head.getD 3 0 := by
     rw [List.append_assoc, getD_append_left' _ _ _ (by omega)]
   have hC : be16 [c / 256 % 256, c % 256] = c := by rw [be16_pair]; omega
-  unfold hrnpDec
+  unfold hrnpDecOld
   simp only [bind, Except.bind, pure, Except.pure, t10, t12, g3, hP, hop, hl, Bool.not_true,
     Bool.false_eq_true, ↓reduceIte]
   rw [if_neg (by omega), if_neg (by omega)]
@@ -257,9 +257,9 @@ theorem hrnpDec_of_parts (head inner : Bytes) (c : Nat) (hh : head.length = 10)
 empty otherwise) parses back with `checksum_correct` -/
 theorem hrnp_selfcheck_lemma (hd ver blk opc src dst pn : Nat) (inner : Bytes)
     (hop : hrnpOpcodes.contains opc = true) (hlen : 12 + inner.length < 65536) :
-    hrnpDec (hrnpEnc hd ver blk opc src dst pn inner) false = .ok true := by
+    hrnpDecOld (hrnpEnc hd ver blk opc src dst pn inner) false = .ok true := by
   unfold hrnpEnc
-  exact hrnpDec_of_parts _ inner _ rfl (by rw [show List.drop 8 [hd, ver, blk, opc, src, dst, pn / 256 % 256, pn % 256,
+  exact hrnpDecOld_of_parts _ inner _ rfl (by rw [show List.drop 8 [hd, ver, blk, opc, src, dst, pn / 256 % 256, pn % 256,
       (12 + inner.length) / 256 % 256, (12 + inner.length) % 256]
       = [(12 + inner.length) / 256 % 256, (12 + inner.length) % 256] from rfl, be16_pair]; omega)
     hop rfl (hrnpChecksum_le _)
